@@ -59,11 +59,13 @@ def run_part(ctx, shapes_per_depth=None, max_reports=4):
 
     FAIL lines (value outside K*2^-23*scale of the documented formula, NaN/inf, wrong shape, an
     exception, Node API != Tensor API bit-for-bit on Naive) -> ctx.violation.
-    CAND lines (batch::normalize on an element whose samples are nearly equal: the documented
-    variance B/(B-1)(mean(x^2) - m^2) cancels in float32; candidate finding) are recorded under
-    ctx.cov["composites"]["candidate_findings"]; they are passed to ctx.violation only when
-    known_findings.json has a C02 entry whose witness_regex matches
-    "composite :: batch_normalize cancellation" (then they print as KNOWN-FINDING).
+    CAND lines (batch::normalize on an element whose samples are nearly equal, and the value is one
+    that a float32 variance within the derived rounding bound dv of the exact one produces: NaN only
+    when v - dv + eps <= 0, else inside the interval printed by the driver; everything else on such
+    an element is a FAIL) are recorded under ctx.cov["composites"]["candidate_findings"] and EVERY
+    one goes through ctx.violation with the witness "composite :: batch_normalize cancellation :: <case>
+    :: <class>": only the C02 entry of known_findings.json (D31) downgrades it to KNOWN-FINDING;
+    without that entry it is an ordinary violation.
     Returns the driver's summary dict plus fails / candidates / violations_reported / wall_s."""
     t0 = time.time()
     cov = ctx.cov.setdefault("composites", {})
@@ -81,6 +83,20 @@ def run_part(ctx, shapes_per_depth=None, max_reports=4):
                "composite_replay_cmd": cmd}
         if ctx.violation("composites-crash", obj, True, "composite_drv died (rc=%s) after %d result lines" % (rc, n_ok + len(fails) + len(cands))):
             res["violations_reported"] += 1
+    # fixed probe of the candidate finding (constant / nearly constant minibatches, the inputs quoted in D31):
+    # judged by the driver exactly like sweep cases; its CAND / FAIL lines are reported with the others
+    rc2, out2 = pv.sh(binary + " --probe", timeout=120)
+    probe = [l for l in out2.splitlines() if l.startswith("PROBE ")]
+    _, pfails, pcands, _ = _parse(out2)
+    res["probe_fails"], res["probe_candidates"] = len(pfails), len(pcands)
+    if rc2 != 0 or not probe:
+        obj = {"kind": "composite-driver-crash", "rc": rc2, "output_tail": out2[-1500:],
+               "witness": "composite :: normalize probe did not run (rc=%s, %d PROBE lines)" % (rc2, len(probe)),
+               "composite_replay_cmd": binary + " --probe"}
+        if ctx.violation("composites-crash", obj, False, "composite_drv --probe died (rc=%s) after %d PROBE lines" % (rc2, len(probe))):
+            res["violations_reported"] += 1
+    replay_of = lambda case: (binary + " --probe") if "seed=probe" in case else "%s --case %s" % (binary, shlex.quote(case))
+    fails, cands = fails + pfails, pcands + cands
     seen = set()
     for (case, cls, details) in fails:
         entry = {"case": case, "class": cls, "details": details[:500]}
@@ -91,21 +107,20 @@ def run_part(ctx, shapes_per_depth=None, max_reports=4):
         seen.add(key)
         obj = {"kind": "composite-vs-documented-formula", "case": case, "class": cls, "what": details[:800],
                "witness": "composite :: %s :: %s" % (case, cls), "driver": binary,
-               "composite_replay_cmd": "%s --case %s" % (binary, shlex.quote(case)),
-               "oracle": "documented formula per coordinate in double precision (harness/composite_drv.cc), tolerance K*2^-23*max(1,|exact|,max|x_j|,max|summand|), K=%s" % res.get("K")}
+               "composite_replay_cmd": replay_of(case),
+               "oracle": "documented formula per coordinate in double precision (harness/composite_drv.cc), tolerance K*2^-23*max(1,|exact|,max|x_j|,max|summand|) + the first-order bound of the n-term sums / logsumexp steps (header of the driver), K=%s" % res.get("K")}
         if ctx.violation("composites", obj, True, "composite %s: %s %s" % (case, cls, details[:400])):
             res["violations_reported"] += 1
-    known = _known(ctx, CAND_WITNESS)
-    for i, (case, cls, details) in enumerate(cands):
+    known = _known(ctx, "%s :: batch_normalize dev=naive shape=-x2 dim=0 seed=0 :: value" % CAND_WITNESS)   # evidence only
+    for (case, cls, details) in cands:
         res["candidates_seen"].append({"case": case, "class": cls, "details": details[:400]})
-        if known and i < 2:
-            obj = {"kind": "composite-vs-documented-formula", "case": case, "class": cls, "what": details[:800],
-                   "witness": "%s :: %s :: %s" % (CAND_WITNESS, case, cls), "driver": binary,
-                   "composite_replay_cmd": "%s --case %s" % (binary, shlex.quote(case))}
-            ctx.violation("composites-cand", obj, True, "batch::normalize cancellation: %s %s" % (case, details[:300]))
-    # fixed probe of the candidate finding (constant / nearly constant minibatches), recorded only
-    rc2, out2 = pv.sh(binary + " --probe", timeout=120)
-    probe = [l for l in out2.splitlines() if l.startswith("PROBE ")]
+        if res["violations_reported"] >= max_reports:
+            continue
+        obj = {"kind": "composite-vs-documented-formula", "case": case, "class": cls, "what": details[:800],
+               "witness": "%s :: %s :: %s" % (CAND_WITNESS, case, cls), "driver": binary,
+               "composite_replay_cmd": replay_of(case)}
+        if ctx.violation("composites-cand", obj, True, "batch::normalize cancellation: %s %s" % (case, details[:300])):
+            res["violations_reported"] += 1
     cov.update({
         "cases": res.get("cases", 0), "ok": res.get("ok", 0), "fail": res.get("fail", len(fails)),
         "candidates": res.get("candidates", len(cands)), "coords_checked": res.get("coords_checked", 0),
@@ -124,7 +139,8 @@ def run_part(ctx, shapes_per_depth=None, max_reports=4):
         "candidate_findings": [{"case": c, "class": k, "details": d[:300]} for (c, k, d) in cands[:6]],
         "candidate_finding_known": known,
         "normalize_probe_not_finite": sum(1 for l in probe if "NOT-FINITE" in l or "nan" in l),
-        "normalize_probe": probe[:6] + probe[-4:],
+        "normalize_probe": probe[:6] + probe[-4:], "normalize_probe_rc": rc2, "normalize_probe_candidates": len(pcands), "normalize_probe_fails": len(pfails),
+        "tolerance": "K*2^-23*scale + (n-1)*2^-24*sum|terms| for every n-term sum (+ the propagated logsumexp error for softmax_cross_entropy; derivation in the header of harness/composite_drv.cc); a CAND is accepted only inside the interval that a variance within dv of the exact one produces, all coordinates of a case are examined",
         "seconds": round(time.time() - t0, 2),
     })
     res["wall_s"] = round(time.time() - t0, 2)
